@@ -96,12 +96,13 @@ Report ==
 \* state invariants, evaluated on every observed state (a state CONSTRAINT: TLC evaluates
 \* unprimed operator applications much faster than primed ones)
 BadState ==
-    {n \in {"C01_AllValid", "C12_Fresh", "C11_ReturnImplies", "C11_CollectIffRaise", "C11_ItemsHeld", "C15_Error", "C15_DictItemError"} :
+    {n \in {"C01_AllValid", "C12_Fresh", "C11_ReturnImplies", "C11_CollectIffRaise", "C11_ItemsHeld", "C11_ItemsLoaded", "C15_Error", "C15_DictItemError"} :
         CASE n = "C01_AllValid" -> ~C01_AllValid
           [] n = "C12_Fresh"    -> ~C12_Fresh
           [] n = "C11_ReturnImplies"   -> ~C11_ReturnImplies
           [] n = "C11_CollectIffRaise" -> ~C11_CollectIffRaise
           [] n = "C11_ItemsHeld"       -> ~C11_ItemsHeld
+          [] n = "C11_ItemsLoaded"     -> ~C11_ItemsLoaded
           [] n = "C15_Error"           -> ~C15_Error
           [] n = "C15_DictItemError"   -> ~C15_DictItemError}
 ReportState ==
